@@ -179,12 +179,13 @@ fn has_duplicate_keys(text: &str) -> bool {
 
 fn leaves(v: &Value, path: String, out: &mut BTreeMap<String, Value>) {
     match v {
-        Value::Object(m) => {
+        // an empty container is information too: a field that is required to be present must not vanish
+        Value::Object(m) if !m.is_empty() => {
             for (k, x) in m {
                 leaves(x, format!("{path}/{k}"), out);
             }
         }
-        Value::Array(a) => {
+        Value::Array(a) if !a.is_empty() => {
             for (i, x) in a.iter().enumerate() {
                 leaves(x, format!("{path}#{i}"), out);
             }
@@ -222,6 +223,20 @@ fn omitted_default(ty: &str, path: &str, v: &Value) -> bool {
         (_, p) if p.ends_with("/m.mentions/room") => *v == json!(false),
         _ => false,
     }
+}
+
+/// List-valued fields the specification marks "Required": an empty list there is a value (for
+/// example "this key was never forwarded"), and leaving the key out makes the content malformed.
+fn required_container(ty: &str, path: &str) -> bool {
+    matches!(
+        (ty, path),
+        ("m.forwarded_room_key", "/forwarding_curve25519_key_chain")
+            | ("m.room.pinned_events", "/pinned")
+            | ("m.typing", "/user_ids")
+            | ("m.room.aliases", "/aliases")
+            | ("m.call.candidates", "/candidates")
+            | ("m.key.verification.request" | "m.room.message", "/methods")
+    )
 }
 
 /// Fixpoint check of a content enum; returns s1.
@@ -264,6 +279,10 @@ fn content_fixpoint<C: EventContentFromType + Serialize>(ty: &str, content: &Val
     // nothing the schema defines is lost (unknown fields are the only thing typed content drops)
     for (p, v) in &a {
         if p.contains("org.example.unknown") || b.contains_key(p) || omitted_default(ty, p, v) {
+            continue;
+        }
+        // an empty list or object: only the fields the specification marks as required must stay
+        if (v.is_array() || v.is_object()) && !required_container(ty, p) {
             continue;
         }
         return Err(format!("content of type {ty}: the value {v} at {p} is missing from the serialised content (input {content}, output {s1})"));
